@@ -8,6 +8,32 @@ TB = ("Trusted: CBMC 6.11 (goto-cc, goto-instrument --dfcc, cbmc + MiniSat/kissa
       "Every remaining assumption is listed by the check itself in evidence.assumptions.")
 
 CHECKS = {
+ "C01": dict(
+   cat="proof",
+   text="FRAGMENT (operator / accessor level): at check time the REAL nanoc (rebuilt from the tree) is run on 27 one-function template programs; the emitted nl_<op> "
+        "functions (cut out mechanically, plus the emitted helpers they call) are proved equal to the spec functions of contracts/spec_int.h for all operand values on the "
+        "common domain (the VM handlers are proved equal to the SAME spec functions under C02.vm.*, so per-operator agreement follows), and the emitted accessor functions "
+        "pass the user's index unmodified to the runtime accessors and return their result. Programs (control flow, printing, scoping): NOT decided.",
+   ref="DESIGN 5/C01, 3.1 item 4, 10.5", note=TB + " Extraction keeps nl_<name> + emitted helpers, drops the rest of the generated TU; (INT64_MIN,-1) and divisor 0 excluded for native div/mod (recorded finding).",
+   tech="CBMC on C emitted by the real transpiler for a template catalogue (mechanical extraction per run), spec functions shared with the VM obligations"),
+ "C03": dict(
+   cat="proof",
+   text="FRAGMENT (interpreter operators): the real eval_expression / eval_prefix_op of eval.c on an operator node with literal operands of arbitrary value: result equals the "
+        "spec functions shared with C02.vm / C01 (int and bool operators; MUL/DIV/MOD value on 8-bit operands, corner cases and fault-freedom full domain), operand 0 "
+        "evaluated once before operand 1, and/or short-circuit, zero divisor ends the run, INT64_MIN / -1 wraps; assert: failure counter +1 (saturating), first location once. "
+        "Composition over programs, strings, floats, structs, printing: NOT decided.",
+   ref="DESIGN 5/C03, 10.5", note=TB + " Plain CBMC (no DFCC frame); wrap of + - * at -O0 assumed; exit/abort as path ends.",
+   tech="CBMC on the real eval.c operator evaluation with literal operand nodes, case split over operators"),
+ "C18": dict(
+   cat="proof",
+   text="FRAGMENT (sequential): client_thread of nano_vmd for EVERY client byte sequence and disconnect point (the client is nondeterminism in read/write stubs): returns, "
+        "closes the client fd exactly once, active-client counter +1/-1 under the mutex, lock discipline, everything allocated is released, no exit/abort, no memory fault in "
+        "its own code; malformed header / unknown type / zero or short payload / undeserialisable or UNVERIFIED module => nothing executed and one error frame or a close; "
+        "protocol receive/send loops under loop contracts; SIGPIPE ignored before accept; accept loop keeps serving after accept/malloc/pthread_create failures. "
+        "Everything that needs two threads is NOT decided (C17).",
+   ref="DESIGN 5/C18, 10.5", note=TB + " OS / pthread / stdio / loader / VM are stubs recording effects; termination of EINTR loops for finitely many EINTRs only.",
+   tech="CBMC DFCC function + loop contracts on the real vmd_server.c / vmd_protocol.c with adversarial OS stubs"),
+
  "C02": dict(
    cat="proof",
    text="FRAGMENT (operator level): for each of the 15 int/bool operators the real VM handler (one real vm_core_execute step on a module "
@@ -116,10 +142,7 @@ CHECKS = {
 }
 
 NOT_YET = {
- "C01": "operator-level agreement VM vs generated C was designed (DESIGN 5/C01) but the generated-C template pipeline is not built; the VM half is discharged under C02; no per-call contract decides the all-programs statement; not claimed",
- "C03": "interpreter operator/assert obligations on eval.c were designed (DESIGN 5/C03) but are not built (eval.c is 4.9k lines; goto-instrument --dfcc exhausted 12 GB on it until every other function body was removed); not claimed",
  "C14": "per-opcode reference-count census and the enforcement of the vm_release contract on the real recursive function were designed (DESIGN 5/C14, 10.4) but are not built; the step harnesses only use the vm_release contract as an assumption; not claimed",
- "C18": "the sequential session obligations on client_thread were designed (DESIGN 5/C18) but are not built; concurrency is outside contract reach anyway (C17); not claimed",
 }
 
 NA = {
